@@ -95,6 +95,9 @@ def run_cli(argv, stdin_text=None):
             status = cli.main(['glom'] + list(argv))
         except SystemExit as e:
             status = e.code if isinstance(e.code, int) else (0 if e.code is None else 1)
+        except BaseException as e:      # anything else escaping main() is a crash of the CLI, not a usage error
+            status = 'crash:%s' % type(e).__name__
+            err.write('%s: %s' % (type(e).__name__, e))
     finally:
         sys.stdin, sys.stdout, sys.stderr = old
     return status, out.getvalue(), err.getvalue()
@@ -136,27 +139,30 @@ def valid_paths(v, prefix=()):
     return out
 
 
-def gen_spec(rng, target, depth):
+def gen_spec(rng, target, depth, nested=False):
     paths = ['.'.join(p) for p in valid_paths(target)]
     r = rng.random()
     if depth <= 0 or r < 0.35 or not paths:
         if paths and rng.random() < 0.8:
             return rng.choice(paths)
+        if nested and rng.random() < 0.3:
+            # a valid literal that is not a usable spec: the library answers with a GlomError that is also a TypeError
+            return rng.choice([5, None, True, 1.5])
         return rng.choice(['nope', 'a.zz.q', '0.zz', 'key.x'])
     if r < 0.65:
-        return {rng.choice(['out', 'x', 'y', 'z1']): gen_spec(rng, target, depth - 1) for _ in range(rng.randint(1, 3))}
+        return {rng.choice(['out', 'x', 'y', 'z1']): gen_spec(rng, target, depth - 1, True) for _ in range(rng.randint(1, 3))}
     if r < 0.8:
         # chain: first step a valid path, then a spec for what it yields
         p = rng.choice(paths)
         sub = target
         for seg in p.split('.'):
             sub = sub[int(seg)] if isinstance(sub, list) else sub[seg]
-        return (p, gen_spec(rng, sub, depth - 1))
+        return (p, gen_spec(rng, sub, depth - 1, True))
     lists = [p for p in valid_paths(target) if isinstance(_follow(target, p), list)]
     if lists:
         p = rng.choice(lists)
         elems = _follow(target, p)
-        return ('.'.join(p), [gen_spec(rng, elems[0] if elems else {}, depth - 1)])
+        return ('.'.join(p), [gen_spec(rng, elems[0] if elems else {}, depth - 1, True)])
     return [rng.choice(paths)] if isinstance(target, list) else rng.choice(paths)
 
 
@@ -338,7 +344,9 @@ def _spec_shape(spec, depth=0):
 
 
 def malformed_targets(col, tmpdir):
-    bad = [('json', '{bad'), ('json', '[1, 2'), ('json', "{'a': 1}"), ('python', '{"a": '), ('python', '__import__("os")'),
+    bad = [('python', "{'a': [1, 2}"), ('python', "{'a': 1,, 'b': 2}"), ('python', "  {'a': 1}\n{'b': 2}"), ('python', '1 +'), ('python', "'unterminated"),
+           ('python', '{"a": \x00}'), ('json', '{"a": 1} trailing'), ('yaml', 'a: b\n\tc: d'), ('toml', 'a = 1\na = 2'),
+           ('json', '{bad'), ('json', '[1, 2'), ('json', "{'a': 1}"), ('python', '{"a": '), ('python', '__import__("os")'),
            ('python', 'a + b'), ('yaml', 'a: [1, 2'), ('yaml', '{a: b: c}'), ('toml', 'a = '), ('toml', '[[['), ('toml', 'a = nul'),
            ('xml', '<a/>')]
     for fmt, text in bad:
@@ -355,7 +363,9 @@ def malformed_targets(col, tmpdir):
             status, out, err = run_cli(argv, stdin)
             col.case(('malformed', fmt, text, channel), True)
             col.count('malformed_target_runs')
-            if status == 0 or 'error' not in (out + err).lower() or out.strip().startswith(('{', '[', '"')) and status == 0:
+            usage = (out + err).lstrip().startswith('error:') and 'could not load target data' in (out + err) or \
+                (fmt == 'xml' and (out + err).lstrip().startswith('error:'))
+            if status != 1 or not usage or out.strip().startswith(('{', '[', '"')):
                 col.violation('C19/malformed-target-not-a-usage-error:' + fmt, 'glom %s (stdin %r): status %r stdout %r stderr %r'
                               % (argv, stdin, status, out, short(err)), None)
     # whitespace-only target text is not valid JSON: a usage error on every channel, not an (empty) result
